@@ -22,7 +22,7 @@ ASSUMPTIONS = [
     "layout reference: SheetJS IWA notes (docs/Numbers.md defers to them): ids follow in ascending flag-bit order",
     "a stub model provides string / rich-text lookups; kinds whose payload flag is mandatory in real files always carry it",
 ]
-EXHAUSTIVE = {"quick": True, "thorough": True}
+EXHAUSTIVE = {"quick": False, "thorough": True}
 EXHAUSTIVE_NOTE = "(a) 8 kinds x 4096 subsets complete in both tiers; (b) all 2^18 id-flag words per kind in thorough"
 
 ATTRS = ["_rich_id", "_cell_style_id", "_text_style_id", "_formula_id", "_control_id", "_suggest_id", "_num_format_id",
